@@ -45,6 +45,12 @@ def items(tier):
                 out.append((sp, {"rule": "TSLACK", "auto_abs": aa, "max_time": F.seq_bound(sp) + 8}))
     for sp in fac:
         out.append((sp, {"rule": "TSLACK", "max_time": F.seq_bound(sp) + 8}))
+    for fl in F.flows(3, ("FF", "SF", "FS"), (1, 2)):
+        if any(k in ("FF", "SF") for _, _, k in fl["links"]):
+            sp = dict(F.with_teams(fl, "DED"), order=[2, 1, 0])
+            out.append((sp, {"rule": "TSLACK", "max_time": F.seq_bound(sp) + 8}))
+    for sp in F.same_name_task_specs() + F.auto_in_workplace_specs():
+        out.append((sp, {"rule": "TSLACK", "max_time": F.seq_bound(sp) + 10}))
     for sp in F.auto_component_specs() + F.rule_sensitive_specs():
         for aa in (False, True):
             out.append((sp, {"rule": "TSLACK", "auto_abs": aa, "max_time": F.seq_bound(sp) + 12}))
@@ -67,6 +73,8 @@ def run(tier, seed):
     H, D = (4, 1) if tier == "quick" else (4, 2)
     its = items(tier)
     col = stepcheck.explore(its, MONS, H, D, seed=seed)
+    lit = [(sp, {"rule": "TSLACK", "max_time": 20}) for sp in F.unsorted_absence_specs()]
+    col.merge(stepcheck.explore(lit, MONS, 0, 0, seed=seed))
     meta = {
         "level": "model_checking",
         "rule": "3-task FS/FF(/SS) and 2-task all-kind workflows over dyadic work amounts x worker layouts (mixed skills incl. 0 and missing, solo, dedicated) "
